@@ -358,12 +358,15 @@ Definition run_ops (src : str) (ops : list op) : pstate := fold_left (run_op src
    - skip_taken_node: the nodes are exactly the last greens handed out, nothing was skipped since
      the last of them was taken (pending_trivia is empty), and the offsets the grammar passes are
      the nodes' ends (known finding F1 is a call that violates the pending_trivia condition). *)
-(* end_of_node_offset of the last node is the current end; each earlier node ends where the next
-   one starts; a node's trailing trivia is part of it *)
-Fixpoint ends_ok (end_ : N) (rev_nodes : list (N * N * N * N)) : bool :=
+(* the offsets the grammar passes: a node's trailing trivia is part of it, the node fits before its
+   end_of_node_offset, which is not past what was consumed; the nodes' diagnostic positions
+   (end - trailing width) do not decrease.  (end_of_node_offset may lie after the node's real end
+   when tokens were skipped behind it and re-attached to the next node: post_attributes_offset in
+   try_parse_module_item.) *)
+Fixpoint ends_ok (hi : N) (rev_nodes : list (N * N * N * N)) : bool :=
   match rev_nodes with
   | [] => true
-  | (w, tw, e, _) :: r => (e =? end_) && (tw <=? w) && (w <=? end_) && ends_ok (end_ - w) r
+  | (w, tw, e, _) :: r => (tw <=? w) && (w <=? e) && (e <=? hi) && ends_ok (e - tw) r
   end.
 Definition op_ok (s : pstate) (o : op) : bool :=
   match o with
